@@ -12,6 +12,13 @@ Decided clauses (the guards the passes rest on):
       try_eliminate_{if,while,for} is preceded by contains_hoisted_declarations(discarded)==false (or by the absence
       of the discarded branch), try_eliminate_for additionally by init().is_none(); the visitor that looks for
       hoisted declarations overrides var + all four function-declaration forms
+  R7  an operand moved out of the node (mem::replace on lhs_mut / rhs_mut / target_mut) becomes the replacement of the
+      whole expression only if that operand was tested to be a Literal, or after passing through a function that rebuilds
+      an expression from it (value_of): a bare Identifier / PropertyAccess would turn `(true && o.f)()`, `typeof (true && x)`
+      and `delete (true && o.p)` from a value into a reference
+  R6  the optimizer never decides anything by a NaN-blind float comparison: an ==, !=, <, … on f64 operands in
+      boa_engine::optimizer is accompanied by an is_nan() test of the same value (truthiness of a folded NaN literal must
+      come from the engine's ToBoolean, not from `v != 0.0`)
   R5  the folder evaluates each operator with the routine the VM uses for it: per operator variant, the JsValue /
       Number / JsBigInt routines called on the folder's match arm equal those of the opcode handler the bytecompiler
       emits for that variant (tables extracted from constant_fold_*_expr, compile_unary/compile_binary and
@@ -414,6 +421,98 @@ def r5(db, rep):
     rep.floor("R5", "folded operators compared with their opcode handler", n, 25)
 
 
+def r7(db, rep, lit):
+    rep.rule("R7", "a moved-out operand replaces the whole expression only when it was tested to be a Literal or was rebuilt "
+                   "by a wrapper (value context): a logical / comma fold must not turn a value into a reference")
+    n = 0
+    for fname in ("ConstantFolding::constant_fold_unary_expr", "ConstantFolding::constant_fold_binary_expr"):
+        fs = [f for f in db.fns.values() if cname(f.id) == fname]
+        if not rep.anchor("R7", fname, fs):
+            continue
+        f = fs[0]
+        sws = expr_discr_switches(f)
+        k = 0
+        for b in sorted(f.reachable()):
+            for st in f.blocks[b]["s"]:
+                r = st["r"]
+                if not (st["p"] == [0] and r.get("k") == "agg" and r.get("adt", "").endswith("PassAction")
+                        and r.get("variant") == "Replace" and r["ops"]):
+                    continue
+                pl = op_local(r["ops"][0])
+                for rt in (roots(f, pl) if pl is not None else []):
+                    if not (rt[0] == "call" and cn(rt[2]).endswith("mem::replace") and rt[2]["args"]):
+                        continue
+                    side = None
+                    al = op_local(rt[2]["args"][0])
+                    for ar in (roots(f, al) if al is not None else []):
+                        if ar[0] == "call" and cn(ar[2]).split("::")[-1] in ("rhs_mut", "lhs_mut", "target_mut"):
+                            side = cn(ar[2]).split("::")[-1][:-4]
+                    if side is None:
+                        continue
+                    n += 1
+                    # the same operand was tested to be a Literal on every path to this exit
+                    ok = False
+                    for sb, cases, other, place in sws:
+                        if lit not in cases or not f.dominates(sb, b):
+                            continue
+                        src = {cn(x[2]).split("::")[-1] for x in roots(f, place[0]) if x[0] == "call"}
+                        if side not in src:
+                            continue
+                        lt = cases[lit]
+                        others = [t for v, t in cases.items() if v != lit] + ([other] if other != lt else [])
+                        # path-sensitive: `matches!(x, Literal(_))` merges its arms into a bool that is switched on later
+                        if f.path_search([lt], {sb}, lambda x, b=b: x == b) is not None and \
+                                f.path_search(others, {sb}, lambda x, b=b: x == b) is None:
+                            ok = True
+                    rep.ob("R7", f"{fname}:replace-by-{side}:{k}:literal-or-rebuilt", ok,
+                           f"{fname} replaces the whole expression by its moved-out {side} operand ({f.loc(b)}) although that "
+                           f"operand was not tested to be a Literal and is not rebuilt as a value: `(true && o.f)()` becomes "
+                           f"`o.f()` (this = o), `typeof (true && x)` stops throwing, `delete (true && o.p)` deletes", loc=f.loc(b))
+                    k += 1
+    rep.floor("R7", "Replace exits fed by a moved-out operand", n, 1)
+
+
+def r6(db, rep):
+    rep.rule("R6", "no NaN-blind float comparison in the optimizer passes: a comparison of f64 operands is accompanied by an "
+                   "is_nan() test of one of them in the same function (`NaN != 0.0` is true, but NaN is falsy)")
+    scanned = 0
+    n = 0
+    for f in db.fns.values():
+        if not f.id.startswith("boa_engine::optimizer") or "::tests" in f.id:
+            continue
+        scanned += 1
+        k = 0
+        nan_tested = set()
+        for b, t in f.calls():
+            if (callee(t) or "").endswith("f64>::is_nan") or cn(t).endswith("f64::is_nan"):
+                l = op_local(t["args"][0]) if t["args"] else None
+                if l is not None:
+                    nan_tested |= {json_k(r) for r in roots(f, l)}
+        for b in sorted(f.reachable()):
+            for st in f.blocks[b]["s"]:
+                r = st["r"]
+                if r.get("k") != "bin" or r.get("ty") not in ("f64", "f32") or r.get("op") not in ("Eq", "Ne", "Lt", "Le", "Gt", "Ge"):
+                    continue
+                n += 1
+                ok = False
+                for o in (r["a"], r["b"]):
+                    l = op_local(o)
+                    if l is not None and {json_k(x) for x in roots(f, l)} & nan_tested:
+                        ok = True
+                rep.ob("R6", f"{cname(f.id)}:float-compare:{k}:nan-aware", ok,
+                       f"{cname(f.id)} compares floats with {r['op']} ({f.file}:{st.get('ln')}) without testing is_nan(): a NaN "
+                       f"literal (produced by folding `0/0`) is then classified wrongly — `if (0/0) A else B` is rewritten to A "
+                       f"under the optimizer although NaN is falsy", loc=f"{f.file}:{st.get('ln')}")
+                k += 1
+    rep.analysed["R6.float comparisons in the optimizer"] = n
+    rep.floor("R6", "optimizer functions scanned for float comparisons", scanned, 40)
+
+
+def json_k(x):
+    import json
+    return json.dumps(x, sort_keys=True, default=str)
+
+
 def run(db, rep, tier):
     lit = variant_index(db, EXPR, "Literal")
     if not rep.anchor("R1", "boa_ast::expression::Expression::Literal", lit is not None):
@@ -423,4 +522,6 @@ def run(db, rep, tier):
     r3(db, rep)
     r4(db, rep)
     r5(db, rep)
+    r6(db, rep)
+    r7(db, rep, lit)
     rep.assumptions += ["the Expression enum has no explicit discriminants (variant index = discriminant)"]
